@@ -202,20 +202,23 @@ def toy():
 
 
 def sign_det_recorded(sk, digest, hf, extra, stab=None):
-    """real sign_digest_deterministic with every inner sign_digest(k=...) outcome recorded"""
+    """real sign_digest_deterministic with every inner sign_digest(k=...) call recorded in order:
+    stab = [(k, (r, s) | None)] (None = RSZeroError).  The same nonce value may legitimately recur as a later
+    candidate (order 167 has few values), so the guard against a retry loop that does not advance is a bound
+    on the number of attempts, not on repetition."""
     from ecdsa.keys import RSZeroError
-    stab = {} if stab is None else stab
+    stab = [] if stab is None else stab
     orig = sk.sign_digest
 
     def wrapped(dg, **kw):
-        if kw["k"] in stab:     # a retry loop that does not advance would never return
-            raise RuntimeError("sign_digest_deterministic retried with the same nonce %d" % kw["k"])
+        if len(stab) >= 64:
+            raise RuntimeError("sign_digest_deterministic made more than 64 attempts (last nonces %s)" % [k for k, _ in stab[-3:]])
         try:
             out = orig(dg, **kw)
         except RSZeroError:
-            stab[kw["k"]] = None
+            stab.append((kw["k"], None))
             raise
-        stab[kw["k"]] = (out[0], out[1])
+        stab.append((kw["k"], (out[0], out[1])))
         return out
     sk.sign_digest = wrapped
     try:
@@ -225,7 +228,7 @@ def sign_det_recorded(sk, digest, hf, extra, stab=None):
 
 
 def stab_token(stab):
-    return ",".join("%d.Z" % k if v is None else "%d.%d.%d" % (k, v[0], v[1]) for k, v in stab.items()) or "-"
+    return ",".join("%d.Z" % k if v is None else "%d.%d.%d" % (k, v[0], v[1]) for k, v in stab) or "-"
 
 
 def correspond(ctx):
@@ -261,36 +264,36 @@ def correspond(ctx):
         dg = bytes(rng.getrandbits(8) for _ in range(rng.choice([1, 2, 20])))
         hf = rng.choice([hashlib.sha1, hashlib.sha256, make_hash(5)])
         extra = rng.choice([b"", bytes([rng.getrandbits(8)])])
-        res = {"stab": {}}
+        res = {"stab": []}
 
         def run():
             return sign_det_recorded(sk, dg, hf, extra, res["stab"])[0]
         rec, th = recorded(run)
-        retried = any(v is None for v in res.get("stab", {}).values())
+        retried = any(v is None for _, v in res["stab"])
         hits += retried
-        c.add("sign_det 167 %d %d %s %s %s %s" % (d, hf().digest_size, hx(dg), hx(extra), rec.token(), stab_token(res.get("stab", {}))),
+        c.add("sign_det 167 %d %d %s %s %s %s" % (d, hf().digest_size, hx(dg), hx(extra), rec.token(), stab_token(res["stab"])),
               th, "toy retry" if retried else "toy")
     for d, msg in ((140, b"\x00\x4f"), (140, b"\x01\x6d"), (140, b"message")):   # the suite's r = 0 / s = 0 messages
         sk = SigningKey.from_secret_exponent(d, tc, hashfunc=hashlib.sha1)
         dg = hashlib.sha1(msg).digest()
-        res = {"stab": {}}
+        res = {"stab": []}
 
         def run():
             return sign_det_recorded(sk, dg, hashlib.sha1, b"", res["stab"])[0]
         rec, th = recorded(run)
-        c.add("sign_det 167 %d 20 %s x %s %s" % (d, hx(dg), rec.token(), stab_token(res.get("stab", {}))), th,
-              "toy retry" if any(v is None for v in res["stab"].values()) else "toy")
+        c.add("sign_det 167 %d 20 %s x %s %s" % (d, hx(dg), rec.token(), stab_token(res["stab"])), th,
+              "toy retry" if any(v is None for _, v in res["stab"]) else "toy")
     for cv in (curves.NIST192p, curves.SECP256k1, curves.NIST521p, curves.SECP160r1) if ctx.quick else curves.curves:
         sk = SigningKey.from_secret_exponent(rng.randrange(1, cv.order), cv)
         hf = rng.choice([hashlib.sha1, hashlib.sha256, hashlib.sha512])
         dg = hf(b"c04 %d" % rng.getrandbits(32)).digest()
-        res = {"stab": {}}
+        res = {"stab": []}
 
         def run():
             return sign_det_recorded(sk, dg, hf, b"", res["stab"])[0]
         rec, th = recorded(run)
         c.add("sign_det %d %d %d %s x %s %s" % (cv.order, sk.privkey.secret_multiplier, hf().digest_size, hx(dg), rec.token(),
-                                                stab_token(res.get("stab", {}))), th, "curve " + cv.name)
+                                                stab_token(res["stab"])), th, "curve " + cv.name)
     ctx.hist("sign_det", "toy_cases_with_rs_zero_retry", hits)
     c.run()
 
@@ -346,9 +349,9 @@ def check_sign(sk, dg, hf, extra):
     pair = lambda r, s, o: (r, s)
     try:
         a = tuple(int(v) for v in sign_det_recorded(sk, dg, hf, extra)[0].split())
-    except RuntimeError as e:
-        return {"got": "exception: " + str(e)}
-    b = sk.sign_digest_deterministic(dg, hashfunc=hf, sigencode=pair, extra_entropy=extra, allow_truncate=True)
+        b = sk.sign_digest_deterministic(dg, hashfunc=hf, sigencode=pair, extra_entropy=extra, allow_truncate=True)
+    except Exception as e:  # noqa
+        return {"got": "exception " + common.errname(e) + ": " + str(e)[:200]}
     rg = 0
     while True:
         k = ref_generate_k(n, d, hf, dg, rg, extra)
@@ -357,6 +360,10 @@ def check_sign(sk, dg, hf, extra):
             break
         except RSZeroError:
             rg += 1
+            if rg > 64:
+                return None     # the signing primitive refuses every nonce: not a statement about the nonce generator
+        except Exception as e:  # noqa
+            return {"got": "sign_digest(k=RFC nonce) raised " + common.errname(e)}
     if a != b or a != want:
         return {"first": list(a), "second": list(b), "expected": list(want), "rfc_nonce": k, "candidates_skipped": rg}
     return None
@@ -416,6 +423,6 @@ def replay(rec):
     hf = hash_by_name(i["hash"]) if not hasattr(hashlib, i["hash"]) else getattr(hashlib, i["hash"])
     if i["kind"] == "generate_k":
         return check_k(rfc6979, i["order"], i["secexp"], hf, bytes.fromhex(i["digest"]), i["retry_gen"], bytes.fromhex(i["extra"])) is not None
-    cv = toy() if i["curve"] == "toy167" else curves.curve_by_name(i["curve"])
+    cv = toy() if i["curve"] == "toy167" else [c for c in curves.curves if c.name == i["curve"]][0]
     sk = SigningKey.from_secret_exponent(i["d"], cv, hashfunc=hashlib.sha1)
     return check_sign(sk, bytes.fromhex(i["digest"]), hf, bytes.fromhex(i["extra"])) is not None
